@@ -36,7 +36,7 @@ def workdir(name, fresh=True):
 
 
 _STATS = re.compile(r"(\d+) states generated, (\d+) distinct states found, (\d+) states left")
-_VERDICT = re.compile(r'^<<"VERDICT", "([^"]*)", "([^"]*)">>\s*$', re.M)
+_VERDICT = re.compile(r'^<<\s*"VERDICT",\s*"([^"]*)",\s*"([^"]*)"\s*>>\s*$', re.M)
 _DEPTH = re.compile(r"The depth of the complete state graph search is (\d+)")
 
 
